@@ -38,6 +38,7 @@ type SpecEnv struct {
 	old      *State
 	fr       *Frame
 	vars     map[string]bound
+	freePtrs map[string]bool // names bound to the address of a captured variable (closure free variables)
 	pkg      *types.Package
 	useCells bool
 	inOld    bool
@@ -75,6 +76,10 @@ func (c *FnCtx) specEnv(fr *Frame, st *State) *SpecEnv {
 	for i, fv := range fr.fn.FreeVars {
 		if i < len(fr.free) {
 			e.vars[fv.Name()] = bound{fr.free[i], fv.Type()}
+			if e.freePtrs == nil {
+				e.freePtrs = map[string]bool{}
+			}
+			e.freePtrs[fv.Name()] = true
 		}
 	}
 	e.useCells = true
@@ -198,6 +203,9 @@ func (e *SpecEnv) scalar(v SV, t types.Type) (Term, types.Type) {
 	case Fn:
 		if x.Opaque.Valid() {
 			return x.Opaque, t
+		}
+		if x.F != nil && len(x.Free) == 0 {
+			return e.c.funcRef(x.F), t
 		}
 	}
 	e.fail("value of type %v is not a scalar in a spec expression (%T)", t, v)
@@ -349,6 +357,12 @@ func (e *SpecEnv) ident(n *ast.Ident) (SV, types.Type) {
 		}
 	}
 	if b, ok := e.vars[n.Name]; ok {
+		if e.freePtrs[n.Name] {
+			// a captured variable: the name denotes the variable, the closure holds its address
+			if v, t, ok := e.derefFree(b); ok {
+				return v, t
+			}
+		}
 		return b.v, b.t
 	}
 	if c.og != nil {
@@ -383,6 +397,33 @@ func (e *SpecEnv) ident(n *ast.Ident) (SV, types.Type) {
 	}
 	e.fail("unknown identifier %s", n.Name)
 	return nil, nil
+}
+
+func (e *SpecEnv) derefFree(b bound) (SV, types.Type, bool) {
+	c := e.c
+	pt, ok := b.t.Underlying().(*types.Pointer)
+	if !ok {
+		return nil, nil, false
+	}
+	et := pt.Elem()
+	switch p := b.v.(type) {
+	case Ad:
+		if p.Cell != nil {
+			if v, ok := e.st.cells[*p.Cell]; ok {
+				return v, et, true
+			}
+			return c.zeroValue(et), et, true
+		}
+		if p.Loc != nil {
+			return c.loadLoc(e.st, p.Loc), et, true
+		}
+	case Sc:
+		if structOf(et) != nil {
+			return c.loadStruct(e.st, et, p.T), et, true
+		}
+		return c.loadLoc(e.st, &Loc{Prefix: "cell$" + typeKey(et), Idx: p.T, T: et}), et, true
+	}
+	return nil, nil, false
 }
 
 func (e *SpecEnv) localVar(a *ssa.Alloc) (SV, types.Type, bool) {
